@@ -117,6 +117,8 @@ def _random(env, cfg):
                     if kv.degree != p or kv.npts != n:
                         bad.append(f"random({p},{n}) shape")
                         continue
+                    if not all(type(x) is cls for x in kv):
+                        bad.append(f"random({p},{n},{cls.__name__}) draw {dr}: knots of type {sorted({type(x).__name__ for x in kv})}")
                     if not (kv[0] == 0 and kv[-1] == 1):
                         bad.append(f"random({p},{n},{cls.__name__}) draw {dr}: interval [{kv[0]!r}, {kv[-1]!r}] not exactly [0, 1]")
                     inner = list(kv)[p:n + 1]
